@@ -352,3 +352,44 @@ Print Assumptions C07_fragments_pass_total.
 Print Assumptions C07_resolve_total.
 Print Assumptions C07_run_total.
 Print Assumptions C07_run_total_untrimmed.
+
+(* ================================================================== 8. every file of a run can be read back ====================== *)
+(* Closes, for the files without joined rows, what section 7 left open ("that every written file satisfies the hypothesis of
+   C07_reader_total"): for every seeding function with seeds_ok, every mode and maxDifference, SU <= 0 < MS, references with shift 0,
+   strictly ascending positions and distinct ids, queries as read (q0s) with shift 0, strictly ascending positions, a label, distinct ids,
+   and the run on the trimmed queries: for the _1 and _2 files of every mode (a file that is not written counts as the empty row list) and
+   for the main file of `separate`, cigarString succeeds on every row (mapM xrow_of = Ok xs: the dicts writeAlignments prints), and the
+   project's reader, given the two CMAP files as read (xmap_of m = (mid m, mpositions m)), returns normally on the written data lines with
+   one alignment per record.  For the main files of best / joined / all the same holds under the EXPLICIT hypothesis that each of their
+   joined rows (joined_row: AlignmentResultRow.resolve of two valid rows of the passes) is a valid matching of labels of its two maps
+   (row_matching) — open finding F10 excludes proving that.  The full statement (which alignments come back) is C18_run_files_readable. *)
+Require Import Cmap Record RunProofs3 RunRecordProofs1 RunRecordProofs2 RunRecordProofs3.
+
+Theorem C07_run_files_readable P (seeds : seeding) (refs q0s : list Pairing.omap) m maxdiff o :
+  SU P <= 0 -> 0 < MS P -> seeds_ok refs seeds ->
+  (forall r, In r refs -> mshift r = 0 /\ ascending r) -> NoDup (map mid refs) ->
+  (forall q0, In q0 q0s -> mshift q0 = 0 /\ ascending q0 /\ mpositions q0 <> []) -> NoDup (map mid q0s) ->
+  program_run P seeds m maxdiff refs (map trim q0s) = Ok o ->
+  let reads (rows : list Multi.row) := exists xs als, mapM xrow_of rows = Ok xs /\
+        xmap_read_lines (xmap_write_lines xs) (map xmap_of refs) (map xmap_of q0s) = XOk als /\ List.length als = List.length rows in
+  reads (opt_rows (o_1 o)) /\ reads (opt_rows (o_2 o)) /\ (m = Separate -> reads (o_main o)) /\
+  ((forall w, In w (o_main o) -> joined_row refs q0s w -> row_matching refs q0s w) -> reads (o_main o)).
+Proof. exact (fun Hsu Hms Hs Hr Hrid => run_files_read_total P seeds refs Hsu Hms Hs Hr Hrid q0s m maxdiff o). Qed.
+
+(* non-vacuity: the run of C07_run_total_nonvacuous (its query read at an offset of 1234.5 bp: rr_q0s) meets the hypotheses; per file: number
+   of data lines, all printed records well-formed, number of alignments read back.  `joined` at maxDifference 10999.9: ZERO records in the
+   main file, read back as the empty list *)
+Example C07_run_files_readable_nonvacuous :
+  SU ModesExamples.ex_P <= 0 /\ 0 < MS ModesExamples.ex_P /\ seeds_ok rr_refs ModesExamples.ex_seeds /\
+  (forall r, In r rr_refs -> mshift r = 0 /\ ascending r) /\ NoDup (map mid rr_refs) /\
+  (forall q0, In q0 rr_q0s -> mshift q0 = 0 /\ ascending q0 /\ mpositions q0 <> []) /\ NoDup (map mid rr_q0s) /\
+  let count x := match x with Some (n, ok, Some als) => Some (n, ok, List.length als) | _ => None end in
+  let counts m d := match rr_run_read m d with Some (a, b, c) => Some (count a, option_map count b, option_map count c) | None => None end in
+  counts Separate 110000 = Some (Some (1%nat, true, 1%nat), Some (Some (1%nat, true, 1%nat)), None) /\
+  counts Joined 109999 = Some (Some (0%nat, true, 0%nat), Some (Some (2%nat, true, 2%nat)), None) /\
+  counts All_ 110000 = Some (Some (1%nat, true, 1%nat), Some (Some (1%nat, true, 1%nat)), Some (Some (1%nat, true, 1%nat))) /\
+  counts Best 110000 = Some (Some (1%nat, true, 1%nat), None, None).
+Proof. split; [discriminate|]. split; [reflexivity|]. split; [exact RunProofs4.ex_seeds_ok|]. split; [exact rr_refs_ok|].
+  split; [exact rr_rid|]. split; [exact rr_q0s_ok|]. split; [exact rr_qid|]. vm_compute. repeat split; reflexivity. Qed.
+
+Print Assumptions C07_run_files_readable.
